@@ -7,6 +7,12 @@ out: `run args = args.foldl step init`, `finish` handles the end of input.  The 
 whether an option occurrence is still collecting arguments; `pending` holds the not yet processed
 letters of a bundled token (a value-taking letter in the middle of a bundle consumes the following
 tokens before the next letter is looked at).
+
+Positional text and unknown options are kept as two logs in the parse state (`rem`, `unk`) instead of
+per-node lists: the library appends them to the current node and `Parse` concatenates the lists
+along the path root → final node, which is the same sequence because the current node only ever
+moves from a node to one of its children.  `textStart` marks where the current node's own text
+begins (the argument of `ArgCompletionsFn`).
 -/
 namespace GoModel
 
@@ -27,10 +33,12 @@ structure PState where
   lastTok : Str := []      -- `iterator.Value()`: the token most recently consumed
   err : Option PErr := none
   comps : Option (List Str) := none
+  rem : List Str := []                 -- ChildText of the nodes on the path, in order
+  unk : List (Str × UMode) := []       -- UnknownOptions: name and the unknown-mode of its level
+  textStart : Nat := 0                 -- where the current node's own text starts in `rem`
 deriving Repr, Inhabited, DecidableEq
 
-def PState.addText (s : PState) (t : Str) : PState :=
-  { s with P := s.P.modNode s.cur fun n => { n with text := n.text ++ [t] } }
+def PState.addText (s : PState) (t : Str) : PState := { s with rem := s.rem ++ [t] }
 
 def dashdash : Str := [chDash, chDash]
 
@@ -93,17 +101,17 @@ def optionCompletions (ext : Ext) (target : Str) (P : Prog) (nd : Node) (w : Str
     else cs
   | _, _ => cs
 
-def argCompletions (ext : Ext) (target : Str) (nd : Node) (w : Str) : List Str :=
+def argCompletions (ext : Ext) (target : Str) (nd : Node) (text : List Str) (w : Str) : List Str :=
   let c1 := (nd.cmds.filter fun kv => hasPrefix kv.1 w).map (·.1)
   let c2 := nd.suggestions.filter fun e => hasPrefix e w
-  let c3 := nd.suggestFns.flatMap fun f => ext.argFn f target nd.text w
+  let c3 := nd.suggestFns.flatMap fun f => ext.argFn f target text w
   let cs := sortStrs (c1 ++ c2 ++ c3)
   match cs with
   | [c] => if target == b "bash" then [c ++ [chSp]] else cs
   | _ => cs
 
-def completionsAt (ext : Ext) (target : Str) (P : Prog) (nd : Node) (w : Str) : List Str :=
-  if hasPrefix w [chDash] then optionCompletions ext target P nd w else argCompletions ext target nd w
+def completionsAt (ext : Ext) (target : Str) (P : Prog) (nd : Node) (text : List Str) (w : Str) : List Str :=
+  if hasPrefix w [chDash] then optionCompletions ext target P nd w else argCompletions ext target nd text w
 
 /-! ## One option occurrence -/
 
@@ -115,7 +123,7 @@ def procPair (ext : Ext) (s : PState) (p : Pair) : PState :=
     if nd.requireOrder then
       { s.addText s.tok with ctx := .stopped, pending := [] }
     else
-      let s1 := { s with P := s.P.modNode s.cur fun n => { n with unknown := n.unknown ++ [p.opt] } }
+      let s1 := { s with unk := s.unk ++ [(p.opt, nd.umode)] }
       if nd.umode != .fail && !s.passed then { s1.addText s.tok with passed := true } else s1
   | [key] =>
     match lookup key nd.opts with
@@ -168,7 +176,8 @@ def afterConsume (ext : Ext) (s : PState) (ps : List Pair) : PState :=
 def head (ext : Ext) (mode : Mode) (comp : Option Str) (s : PState) (t : Str) : PState :=
   match comp with
   | some target =>
-    { s with comps := some (completionsAt ext target s.P (s.P.node s.cur) t), ctx := .done }
+    { s with comps := some (completionsAt ext target s.P (s.P.node s.cur) (s.rem.drop s.textStart) t),
+             ctx := .done }
   | none =>
     if t == dashdash then { s with ctx := .stopped }
     else match isOption t mode with
@@ -176,7 +185,7 @@ def head (ext : Ext) (mode : Mode) (comp : Option Str) (s : PState) (t : Str) : 
       | (_, false) =>
         let nd := s.P.node s.cur
         match lookup t nd.cmds with
-        | some c => { s with cur := c }
+        | some c => { s with cur := c, textStart := s.rem.length }
         | none => if nd.requireOrder then { s.addText t with ctx := .stopped } else s.addText t
 
 /-- the open occurrence refused `t`: go through the pending pairs, offering `t` to each occurrence
